@@ -88,9 +88,10 @@ class Discriminator(MetadataMixin):
         else:
             return {**default_mapping, **mapping}
 
-    # Make it hashable to be used in Annotated
+    # Make it hashable to be used in Annotated (mapping can be unhashable, but equal
+    # discriminators must have the same hash)
     def __hash__(self):
-        return hash(id(self))
+        return hash((self.alias, self.override_implicit))
 
     def __call__(self, cls: Cls) -> Cls:
         _discriminators[cls] = self
